@@ -29,7 +29,7 @@ func init() {
 		Real:           []string{"RegisterGCAHandler/registerGCA/saveGCAKey", "loadGCAPubkey at restart", "AuthorizeEquipmentHandler, AuthorizedServersHandlerPOST, EquipmentMigrateHandler authority checks"},
 		Stub:           []string{"socket listeners; concurrency is the seeded release order of request tasks (one critical section per registration) - real parallel execution is covered by C13's race mode"},
 		NotInjected:    []string{"torn or lost writes after power loss", "fsync ordering", "failing writes on files other than gcaPubKey.dat (that one is injected: disk.write-fails)", "wall clock moving backwards (not expressible in a synctest bubble)"},
-		RequiredProbes: []string{"c07.competition", "c07.replay-after-success", "c07.after-restart", "c07.loser-signs", "c07.pre-registration-authority", "c07.degenerate-candidate", "c07.key-file-unwritable"},
+		RequiredProbes: []string{"c07.competition", "c07.replay-after-success", "c07.after-restart", "c07.loser-signs", "c07.pre-registration-authority", "c07.degenerate-candidate", "c07.key-file-unwritable", "c07.empty-key-file"},
 		RequiredSites:  []string{"gcakey.after-write"},
 	})
 }
@@ -46,6 +46,14 @@ func runC07(m *Sim) {
 	defer w.Shutdown()
 	n := w.AddServer("srv0", "temp-srv0", true)
 	SetSlot(uint32(m.C.Int("now0", 3000)))
+	if m.C.Chance("empty-key-file-left-behind", 1, 6) {
+		// What a crash between creating the key file and writing the key leaves
+		// (start-up reads an empty file as "not registered"): the one
+		// registration must still be possible, take effect and stay the only one.
+		must(os.MkdirAll(n.Dir, 0755))
+		must(os.WriteFile(filepath.Join(n.Dir, "gcaPubKey.dat"), nil, 0644))
+		m.Probe("c07.empty-key-file")
+	}
 	n.Boot()
 	cands := []*KeyPair{Key("gcaA"), Key("gcaB"), Key("gcaC")}
 	dev := &Device{Role: "dev0", ID: 10, Key: Key("dev0")}
@@ -233,7 +241,9 @@ func c07Key(w *World, n *ServerNode) {
 	s := n.Snap()
 	file := n.ReadFile("gcaPubKey.dat")
 	if !n.Model.Registered {
-		if s.GCAAvailable || file != nil {
+		// (An empty key file is what a crash may leave and what start-up reads as
+		// "not registered": it holds no key.)
+		if s.GCAAvailable || len(file) != 0 {
 			w.Fail("C07.once", "key", "no registration succeeded but the server holds a GCA key (available=%v, file=%d bytes)", s.GCAAvailable, len(file))
 		}
 		return
